@@ -1920,6 +1920,12 @@ class Exec:
         if re.search(r'::(add|offset)$', c) and ('*const' in c or '*mut' in c or 'ptr::' in c):
             p, k = args
             return R(ElemPtr(p.arr, p.idx + k, cast=p.cast))
+        if re.search(r'<impl \*(const|mut) \[T\]>::(len|is_empty)$', c):
+            a = args[0].ptr if isinstance(args[0], BoxVal) else args[0]
+            if isinstance(a, ArrRef):
+                a = Slice(a.arr, bv(0), a.arr.len)
+            n_ = s.slice_len(st, a)
+            return R(n_ if c.endswith('len') else n_ == 0)
         if re.search(r'::len$', c) and '<impl [' in c:
             a = args[0]
             if isinstance(a, ArrRef):
